@@ -181,8 +181,20 @@ def _same_section(ctx, b, bb, lookup_term):
     return None
 
 
-def rule_PN(ctx, tier):
-    rr = RuleResult("PN", "no request, reply, replayed insert or stale look-up reaches an unwrap (every unwrap reachable from a thread root classified)")
+def rule_PN_tower(ctx, tier):
+    return rule_PN(ctx, tier, scope="tower")
+
+
+def rule_PN_plugin(ctx, tier):
+    return rule_PN(ctx, tier, scope="plugin")
+
+
+def rule_PN2(ctx, tier):
+    return rule_PN(ctx, tier, scope="tower", only=("pn2",), name="PN2")
+
+
+def rule_PN(ctx, tier, scope="all", only=None, name=None):
+    rr = RuleResult(name or {"all": "PN", "tower": "PNt", "plugin": "PNp"}[scope], "no request, reply, replayed insert or stale look-up reaches an unwrap (every unwrap reachable from a thread root classified)")
     P = ctx.prog
     roots, kinds = R.root_kinds(P, ctx.cg)
     sources = _taint_sources(ctx)
@@ -190,6 +202,9 @@ def rule_PN(ctx, tier):
     for bid, b in P.bodies.items():
         ks = kinds.get(bid)
         if not ks:
+            continue
+        is_plugin = bool(ks & {"RPC", "MANAGER", "RETRIER"}) and not (ks & {"API", "CHAIN"})
+        if scope == "tower" and is_plugin or scope == "plugin" and not is_plugin and not (ks & {"RPC", "MANAGER", "RETRIER"}):
             continue
         bl = ctx.locks.locks(bid)
         for bb, t in b.calls():
@@ -223,6 +238,8 @@ def rule_PN(ctx, tier):
                     rr.notes.append("unclassified unwrap (not tainted): %s at %s" % (key, where))
                 continue
             cls, reason = entry
+            if only and cls not in only:
+                continue
             if cls in ("ok", "undecided"):
                 counts[cls] = counts.get(cls, 0) + 1
                 rr.ok("%s[%s]" % (key, cls), nontrivial=False)
@@ -287,7 +304,7 @@ def rule_PN(ctx, tier):
                                 shortfn(bid), shortfn(pname), (" while holding {%s} (poisoning them)" % ", ".join(held)) if held else ""), where=where)
                 continue
     rr.notes.append("auto-classified: %s" % counts)
-    rr.require_floor(45, "classified unwrap sites")
+    rr.require_floor({"all": 45, "tower": 28, "plugin": 20}[scope] if not only else 3, "classified unwrap sites")
     return rr
 
 
